@@ -1,5 +1,6 @@
 import BtcModel.Bip32
 import BtcModel.Driver.Common
+import BtcModel.Address
 import BtcModel.KeyFormat
 import BtcModel.KeyLogic
 import BtcModel.Base58
@@ -98,6 +99,32 @@ def handleKeys (_D : Dev) : List String → Option String
         let wts := (ents.map fun e => e.2.witnessType).eraseDups
         let mss := (ents.map fun e => toString e.2.multisig).eraseDups
         s!"depth={k.depth} fp={toHex k.parentFp} child={k.childNum} chain={toHex k.chain} keydata={toHex k.keyData} private={privs} networks={nets} witness={wts} multisig={mss}"
+    pure (two r r)
+  | ["dest_script", net, addr] => do
+    -- address -> standard locking script, for a transaction on network `net`
+    let r := match Gen.networks.find? (·.name == net) with
+      | none => "none"
+      | some nw =>
+        match b58checkDec sha256d addr.toList with
+        | some p =>
+          if p.length ≠ 21 then "none"
+          else if p.take 1 == nw.prefixAddress then toHex (lockScript (.p2pkh (p.drop 1)))
+          else if p.take 1 == nw.prefixP2sh then toHex (lockScript (.p2sh (p.drop 1)))
+          else "none"
+        | none =>
+          match segwitDec addr.toList with
+          | some (hrp, v, prog) => if hrp == nw.bech32.toList then toHex (lockScript (.witness v prog)) else "none"
+          | none => "none"
+    pure (two r r)
+  | ["script_dest", net, h] => do
+    let sc ← ofHex h
+    let r := match Gen.networks.find? (·.name == net), classifyScript sc with
+      | some nw, some (.p2pkh hh) => "p2pkh " ++ String.ofList (b58checkEnc sha256d (nw.prefixAddress ++ hh))
+      | some nw, some (.p2sh hh) => "p2sh " ++ String.ofList (b58checkEnc sha256d (nw.prefixP2sh ++ hh))
+      | some nw, some (.witness v prog) =>
+        (if v = 0 then (if prog.length = 20 then "p2wpkh " else "p2wsh ") else if v = 1 ∧ prog.length = 32 then "p2tr " else s!"witness_v{v} ")
+          ++ String.ofList (segwitEnc nw.bech32.toList v prog)
+      | _, _ => "nonstandard"
     pure (two r r)
   | _ => none
 
